@@ -24,7 +24,7 @@ ALL_DEVS = [D1, D2, D3, D4, D6]
 REAL_DEFLIMIT = 2000
 
 # named values of spec/MC_MetricsSync.tla -> python values (used to build Cfg events / programs)
-TEMPS = {"T_d": ["delta"], "T_c": ["cum"], "T_dc": ["delta", "cum"], "T_dd": ["delta", "delta"],
+TEMPS = {"T_d": ["delta"], "T_c": ["cum"], "T_dc": ["delta", "cum"], "T_cd": ["cum", "delta"], "T_dd": ["delta", "delta"],
          "T_cc": ["cum", "cum"], "T_ddc": ["delta", "delta", "cum"]}
 FILTERS = {"F_all": [[0]], "F_k1": [[1]], "F_none": [[]], "F_k12": [[1, 2]], "F_all_k1": [[0], [1]],
            "F_k1_all": [[1], [0]], "F_k2_k1": [[2], [1]]}
@@ -39,23 +39,24 @@ class ModelCfg:
     """One TLC configuration of MetricsSync.tla."""
 
     def __init__(self, temps, filters, attrseqs, *, limit=100, deflimit=100, handles=1, amounts="AM_12",
-                 maxadd=3, maxcol=3, allorders=False, dev=()):
+                 maxadd=3, maxcol=3, allorders=False, dev=(), init=None):
         self.temps, self.filters, self.attrseqs = temps, filters, attrseqs
+        self.init = len(TEMPS[temps]) if init is None else init     # readers registered up front; the rest arrive late
         self.limit, self.deflimit, self.handles = limit, deflimit, handles
         self.amounts, self.maxadd, self.maxcol = amounts, maxadd, maxcol
         self.allorders, self.dev = allorders, tuple(dev)
 
     def name(self):
-        return "%s %s %s %s L=%d/%d h=%d add<=%d col<=%d%s%s" % (
-            self.temps, self.filters, self.attrseqs, self.amounts, self.limit, self.deflimit, self.handles, self.maxadd,
+        return "%s%s %s %s %s L=%d/%d h=%d add<=%d col<=%d%s%s" % (
+            self.temps, "" if self.init == len(TEMPS[self.temps]) else "(%d up front)" % self.init, self.filters, self.attrseqs, self.amounts, self.limit, self.deflimit, self.handles, self.maxadd,
             self.maxcol, " allorders" if self.allorders else "", " Dev=" + ",".join(self.dev) if self.dev else "")
 
     def text(self, hist, invariants, dev=None):
         dev = self.dev if dev is None else dev
-        return ("CONSTANTS\n  Temps <- %s\n  Filters <- %s\n  AttrSeqs <- %s\n  Limit = %d\n  DefLimit = %d\n"
+        return ("CONSTANTS\n  Temps <- %s\n  InitReaders = %d\n  Filters <- %s\n  AttrSeqs <- %s\n  Limit = %d\n  DefLimit = %d\n"
                 "  MaxHandles = %d\n  Amounts <- %s\n  MaxAdd = %d\n  MaxCollect = %d\n  AllOrders = %s\n"
                 "  Dev = %s\n  Hist = %s\nINIT Init\nNEXT Next\nVIEW View\nINVARIANTS %s\n" % (
-                    self.temps, self.filters, self.attrseqs, self.limit, self.deflimit, self.handles,
+                    self.temps, self.init, self.filters, self.attrseqs, self.limit, self.deflimit, self.handles,
                     self.amounts, self.maxadd, self.maxcol,
                     "TRUE" if self.allorders else "FALSE", tla_set(dev), "TRUE" if hist else "FALSE",
                     " ".join(invariants)))
@@ -69,7 +70,7 @@ class ModelCfg:
     def cfg_event(self, x):
         """The monitor's Cfg event for a behaviour of this model configuration (model vocabulary)."""
         return {"e": "Cfg", "x": x, "mode": "api" if self.limit == self.deflimit else "storage",
-                "temps": TEMPS[self.temps], "filters": FILTERS[self.filters], "limit": self.limit,
+                "temps": TEMPS[self.temps][:self.init], "filters": FILTERS[self.filters], "limit": self.limit,
                 "mono": all(a >= 0 for a in AMOUNTS[self.amounts])}
 
 
@@ -102,7 +103,7 @@ def model_check(ctx, mcs, *, workers=3, parallel=2, timeout_s=600, coverage_firs
             raise Broken("the reference model violates %s in config %s\n%s" % (r.violated, mc.name(), r.trace_text[:3000]))
         T.must_ok(r, "MetricsSync model checking " + mc.name())
         if coverage_first and i == 0:
-            for a in ("Create", "Add", "Collect"):
+            for a in ("Create", "Add", "Collect") + (("AddReader",) if mc.init < len(TEMPS[mc.temps]) else ()):
                 if r.coverage.get(a, (0, 0))[0] == 0:
                     raise Broken("vacuity: action %s never taken in %s" % (a, mc.name()))
     return results
@@ -189,7 +190,7 @@ KINDS = [("counter", "long"), ("counter", "double"), ("updown", "long"), ("updow
 def concretisation(rng, mono):
     kinds = KINDS[:2] if mono else KINDS[2:]
     kind, vt = rng.choice(kinds)
-    return {"kind": kind, "vt": vt, "kt": rng.randrange(4), "vf": rng.randrange(11), "scale": rng.randrange(3),
+    return {"kind": kind, "vt": vt, "kt": rng.randrange(4), "vf": rng.randrange(13), "scale": rng.randrange(3),
             "seed": rng.randrange(1, 1 << 30), "defview": rng.random() < 0.5}
 
 
@@ -204,6 +205,8 @@ def program_from_behaviour(beh, x, rng):
     for e in beh["events"]:
         if e["e"] == "Create":
             ops.append({"e": "Create"})
+        elif e["e"] == "AddReader":
+            ops.append({"e": "AddReader", "t": e["t"]})
         elif e["e"] == "Add":
             ops.append({"e": "Add", "h": e["h"], "attrs": e["attrs"], "v": e["v"]})
         elif e["e"] == "Collect":
@@ -233,28 +236,45 @@ def attr_pool(rng, nsets, nkeys, nvals, maxlen=3):
 
 
 def random_program(rng, x, *, mode="api", temps=None, filters=None, limit=REAL_DEFLIMIT, handles=1, nops=120,
-                   nsets=12, nkeys=3, nvals=3, p_collect=0.2, mono=None, amounts=(1, 9), late_create=True):
+                   nsets=12, nkeys=3, nvals=3, p_collect=0.2, mono=None, amounts=(1, 9), late_create=True,
+                   late=(), collect_first=False):
+    """`temps`: readers registered up front; `late`: temporalities of readers registered at random points in
+    the middle of the history; `collect_first`: some collections happen before the instrument is created."""
     temps = temps or rng.choice(list(TEMPS.values()))
     filters = filters or [[0]]
     mono = (rng.random() < 0.6) if mono is None else mono
     p = {"x": x, "mode": mode, "temps": temps, "filters": filters, "limit": limit}
     p.update(concretisation(rng, mono))
     pool = attr_pool(rng, nsets, nkeys, nvals)
-    ops = [{"e": "Create"}]
+    ops = []
+    nr = len(temps)
+    if collect_first:
+        for _ in range(rng.randrange(1, 3)):
+            ops.append({"e": "Collect", "r": rng.randrange(1, nr + 1)})
+    ops.append({"e": "Create"})
     nh = 1
+    late = list(late)
+    when = sorted(rng.randrange(nops // 5, nops) for _ in late)
     for i in range(nops):
+        while when and when[0] == i:
+            when.pop(0)
+            ops.append({"e": "AddReader", "t": late.pop(0)})
+            nr += 1
         u = rng.random()
         if nh < handles and late_create and u < 0.03:
             ops.append({"e": "Create"})
             nh += 1
         elif u < p_collect:
-            ops.append({"e": "Collect", "r": rng.randrange(1, len(temps) + 1)})
+            ops.append({"e": "Collect", "r": rng.randrange(1, nr + 1)})
         else:
             v = rng.randint(amounts[0], amounts[1])
             if not mono and rng.random() < 0.4:
                 v = -v
             ops.append({"e": "Add", "h": rng.randrange(1, nh + 1), "attrs": rng.choice(pool), "v": v})
-    for r in range(1, len(temps) + 1):            # final quiescent collection by every reader
+    for t in late:
+        ops.append({"e": "AddReader", "t": t})
+        nr += 1
+    for r in range(1, nr + 1):            # final quiescent collection by every reader
         ops.append({"e": "Collect", "r": r})
     p["ops"] = ops
     p["src"] = "random"
